@@ -533,8 +533,8 @@ func TestRoundTrip(t *testing.T) {
 	}
 }
 
-// scribble edits a decoded value in place the way its owner may: every byte of every byte slice reachable from it is
-// inverted and every settable string is replaced. (Slices are shared by copies of the struct, so this reaches the
+// scribble edits a decoded value in place the way its owner may: every byte of every byte slice reachable from it through
+// EXPORTED fields is inverted and every settable string is replaced. (Slices are shared by copies of the struct, so this reaches the
 // memory a decoder would have had to share to make two results depend on each other.)
 func scribble(obj any) {
 	v := reflect.ValueOf(obj)
@@ -558,6 +558,9 @@ func scribble(obj any) {
 				return
 			}
 			for i := 0; i < v.NumField(); i++ {
+				if v.Type().Field(i).PkgPath != "" {
+					continue // unexported: not the application's to edit
+				}
 				walk(v.Field(i), depth+1)
 			}
 		case reflect.Slice:
@@ -641,6 +644,13 @@ func TestReuse(t *testing.T) {
 					next, class = gen.Mutate(t, next, [][]byte{prev}, c.fields)
 				}
 				callMarshal := rapid.Bool().Draw(t, "marshalFirst")
+				// in a fifth of the cases the object's exported fields are edited by the application between the two decodes, and
+				// in half of those the second message is the SAME bytes as the first (a retransmission): the decode must still
+				// (re)establish the decoded value
+				editBetween := gen.Uniform(t, 5, "editBetween") == 0
+				if editBetween && rapid.Bool().Draw(t, "sameBytesAgain") {
+					next, class = append([]byte{}, prev...), "same-bytes-after-edit"
+				}
 				s.Eval()
 				s.Class(class)
 				obj := c.newObj()
@@ -655,13 +665,17 @@ func TestReuse(t *testing.T) {
 					}
 					s.Class("marshal-before-reuse")
 				}
+				if editBetween {
+					scribble(obj)
+					s.Class("fields-edited-between-decodes")
+				}
 				// the application keeps the first decoded VALUE (a copy of the struct, sharing its slices, as in
 				// `list = append(list, *req)`) while the object is reused for the next message
 				kept := reflect.New(reflect.ValueOf(obj).Elem().Type())
 				kept.Elem().Set(reflect.ValueOf(obj).Elem())
 				var ok bool
 				o := rt.GuardLite(func() { ok = c.into(obj, next) })
-				if can, err := c.canonical(kept.Interface(), prev); err != nil || !bytes.Equal(can, prev) {
+				if can, err := c.canonical(kept.Interface(), prev); !editBetween && (err != nil || !bytes.Equal(can, prev)) {
 					rt.Fail(t, "C04/"+c.name+"/reuse-changes-kept-value", "a value decoded from %s and kept (struct copy) while its object decoded %s now reads %s (%v)", rt.Hex(prev), rt.Hex(next), rt.Hex(can), err)
 					return
 				}
